@@ -13,6 +13,11 @@ def run(ctx):
     r = vlib.run_tlc(ctx.sc, "MC_Rule", "Gen_Rule.cfg", collect_json=True, workers=1, simulate=n, depth=12,
                      seed=ctx.seed, timeout=3000)
     behs = diverse(r.lines, n, steps_of=lambda b: b["steps"], seed=ctx.seed)
+    # rules with a schedule condition, driven by trigger points stamped inside / outside the window
+    n2 = 16 if t == "quick" else 200
+    r2 = vlib.run_tlc(ctx.sc, "MC_Rule", "Gen_Rule_sched.cfg", collect_json=True, workers=1, simulate=n2, depth=12,
+                      seed=ctx.seed, timeout=3000)
+    behs += diverse(r2.lines, n2, steps_of=lambda b: b["steps"], seed=ctx.seed)
     if not behs:
         raise vlib.MachineryError("Gen_Rule printed nothing")
     p = ctx.sc.path("c13.jsonl")
@@ -30,7 +35,8 @@ def run(ctx):
                 "conditions in order, one write per change) agrees with the declarative reading (condition active iff the last "
                 "matching point of the batch satisfies it; rule active iff all conditions are; action lists run exactly on a "
                 "change). Configurations: every single condition of the alphabet (node/type/key filters, number operators > < = "
-                "!=, on/off, text = != contains, thresholds 0/1) in the quick tier, pairs from a reduced set in the thorough "
+                "!=, on/off, text = != contains, thresholds 0/1; schedule conditions fed with trigger points whose time lies inside or "
+                "outside the window, alone and next to point conditions) in the quick tier, pairs from a reduced set in the thorough "
                 "tier, with 0..2 set-value actions per list. TLC-simulated behaviours (configuration + 6 batches of 1..2 points "
                 "from 2 source nodes, with the predicted writes after each batch) are replayed on a real instance running the "
                 "real rule client under the real client manager; a spy on p.* must see exactly the predicted writes (conditions, "
